@@ -12,6 +12,8 @@ component tensors, conditionals, derivatives, restricted operands, variables, an
 mixed elements with sub-elements of different degrees - including a Piola-mapped sub-element on an
 immersed mesh (reference size != physical size), a symmetric element and an element whose
 embedded_subdegree is smaller than its embedded_superdegree.
+C18-key: shared MEMO-KEY rule over estimate_degrees.py (a memo of sub-element offsets must be keyed by
+everything the offsets depend on, e.g. the domain and not only the element).
 """
 
 from __future__ import annotations
